@@ -206,6 +206,23 @@ def run(tier):
             if p == "deep-error" and n >= 3:
                 continue      # 110 points per execution: 50 000 schedules at 3 threads; covered at 2 threads with bounds 2 and 3
             jobs.append((asan_exe, p, n, b, 400000 if tier == "thorough" else 60000, env_a, budget))
+    # the corpus of valid programs of C01 (every statement and expression node kind): same exploration at bound 1 (2 in thorough)
+    from . import c01
+    cdir = os.path.join(build.BUILD, "scratch", "c14")
+    os.makedirs(cdir, exist_ok=True)
+    corpus = []
+    from ..core import run_batch
+    probe = [Case("v%d" % i, [op_ctx(), op_run("k = 0;"), op_run(text + " print k;")], {}) for i, text in enumerate(c01.SEEDS)]
+    valid = [r.get("st") == "done" and r["steps"][-1].get("r") in ("ok", "rerr") for r in run_batch(probe)]
+    for i, text in enumerate(c01.SEEDS):
+        if not valid[i] or any(w in text for w in ("random", "getenv", "getsys", "readln", "input(", "read(")):
+            continue
+        path = os.path.join(cdir, "seed%d.txt" % i)
+        with open(path, "w") as f:
+            f.write("k = 0;\n%%\n" + text + " print k;")
+        corpus.append("@" + path)
+    for p in corpus:
+        jobs.append((asan_exe, p, 2, 2 if tier == "thorough" else 1, 20000, env_a, budget))
     jobs.sort(key=lambda j: (0 if j[1] == "deep-error" else 1, -j[2] * j[3]))     # longest first
     total = Result()
     viols = {}
@@ -230,7 +247,7 @@ def run(tier):
                 if rc == "timeout":
                     continue
             for v in vl:
-                key = "schedule:%s:%s" % (v.get("violation", "fatal"), prog)
+                key = "schedule:%s:%s" % (v.get("violation", "fatal"), os.path.basename(prog) if prog.startswith("@") else prog)
                 e = viols.setdefault(key, {"count": 0, "first": None})
                 e["count"] += 1
                 if e["first"] is None:
@@ -254,8 +271,10 @@ def run(tier):
     for p in progs:
         for n in ((2, 4, 8) if tier == "thorough" else (4,)):
             tjobs.append((tsan_exe, p, n, 30 if tier == "thorough" else 10, env_t))
+    for p in corpus:
+        tjobs.append((tsan_exe, p, 4, 10 if tier == "thorough" else 3, env_t))
     tsan_runs = 0
-    with concurrent.futures.ThreadPoolExecutor(max_workers=4) as ex:
+    with concurrent.futures.ThreadPoolExecutor(max_workers=8) as ex:
         for (prog, n, rc, races) in ex.map(run_tsan, tjobs):
             tsan_runs += 1
             for kind, site, text in races:
@@ -275,7 +294,8 @@ def run(tier):
     total.parts = parts + [{"part": "tsan", "runs": tsan_runs}]
     total.merge(explore("%s-%s-orders" % (PROP, tier), seq_gen(tier), check, chunk=100, deadline=t0 + budget))
     rule = ("%d programs (recursion, table+forall, null logic, handled / unhandled / nested errors, strings, literals, function locals, deep error unwinding, "
-            "random, tuples, inherited variables read as operands, matches with per-clone patterns) x configurations %s (threads, preemption bound): all schedules by depth-first iterative context bounding over the instrumented "
+            "random, tuples, inherited variables read as operands, matches with per-clone patterns) x configurations %s, and the valid programs of the C01 corpus at "
+            "2 threads with bound 1 (2 in thorough) (threads, preemption bound): all schedules by depth-first iterative context bounding over the instrumented "
             "points, each compared with the sequential run; TSan free-running pass with %s threads; all precondition-respecting orders of clone/run/purge/free "
             "up to length %d. Non-trivial: every schedule runs all threads to completion" % (len(progs), configs, "2/4/8" if tier == "thorough" else "4", 6 if tier == "thorough" else 5))
     return finish(PROP, tier, total, check, rule, t0, extra={"schedules": schedules, "states": schedules, "preemption_bounds": configs},
